@@ -242,3 +242,23 @@ func Harness_C01_r_strings_misc() {
 	verifAssert(r_goeval(x, y) == x*y+1+x, "r_goeval: GoEval reading local variables")
 	verifCover("end")
 }
+
+func Harness_C01_r_stmt_match_value() {
+	t, k, n, _ := symTok("t")
+	a := verifInt("a")
+	var got int
+	og := observe(func() { got = r_stmt_match_value(t, a) })
+	w := 0
+	if k == 1 {
+		w = n
+	}
+	verifAssert(got == a+1 && sameObs(og, obs{[]int{w}, []string{"after"}}), "r_stmt_match_value: the value of a statement match is dropped, the block goes on")
+	s := []string{"x", "y"}[verifChoice("s", 2)]
+	og = observe(func() { got = r_stmt_strmatch_value(s, a) })
+	w = 2
+	if s == "x" {
+		w = 1
+	}
+	verifAssert(got == a+2 && sameObs(og, obs{[]int{w}, []string{"after"}}), "r_stmt_strmatch_value: the same for a string match")
+	verifCover("end")
+}
